@@ -2525,6 +2525,10 @@ sexp sexp_load_standard_ports (sexp ctx, sexp env, FILE* in, FILE* out,
   return SEXP_VOID;
 }
 
+#if SEXP_USE_VERIF_HOOKS
+extern int sexp_verif_env_loaded;
+#endif
+
 sexp sexp_load_standard_env (sexp ctx, sexp e, sexp version) {
   int len;
   char init_file[128];
@@ -2575,6 +2579,9 @@ sexp sexp_load_standard_env (sexp ctx, sexp e, sexp version) {
       sexp_env_next_cell(sexp_env_bindings(e)) = tmp;
     }
   }
+#endif
+#if SEXP_USE_VERIF_HOOKS
+  sexp_verif_env_loaded = 1;    /* forced GC schedules start here unless CHIBI_VERIF_GC_EARLY */
 #endif
   sexp_gc_release3(ctx);
   return sexp_exceptionp(tmp) ? tmp : e;
